@@ -126,6 +126,11 @@ func searchPossibleConflict(instance *datadoghqv1alpha1.ExtendedDaemonsetSetting
 		for _, edsNode := range edsNodes {
 			selector, err2 := metav1.LabelSelectorAsSelector(&edsNode.Spec.NodeSelector)
 			if err2 != nil {
+				if edsNode.Name != instance.Name {
+					// the unusable selector of another setting is reported on that setting only
+					continue
+				}
+
 				return "", err2
 			}
 			if selector.Matches(labels.Set(node.Labels)) {
